@@ -427,6 +427,12 @@ def _verify_function(self, cname):
             mod, qual, node, cls = self.idx.find(cname.split("#")[0])
         label_loops(node)
         node._labelled = True
+        # a decorator replaces the function that callers get: the verified body is then not what a call executes
+        for dec in getattr(node, "decorator_list", []):
+            dname = ast.unparse(dec)
+            if dname.split("(")[0].split(".")[-1] not in ("staticmethod", "classmethod", "property", "wraps"):
+                raise Unsupported("decorator @%s is not modelled: the body under contract is not what a call of %s executes"
+                                  % (dname, cname.split("#")[0]), node)
         info["line"] = node.lineno
         info["source"] = getattr(self.idx.module(mod), "_path", mod)
         f = Func(mod, qual, node, cls)
